@@ -740,6 +740,29 @@ Qed.
 
 End with_ac.
 
+(* ---------------------------------------------------------------- weakening: a transition that may not clear is one that may *)
+
+Lemma estep_weaken ac cfg s s' : estep ac cfg s s' -> estep true cfg s s'.
+Proof.
+  intros [s0 vs s1 h Hvs Hp|s0 vs s1 h Hvs Hp|s0 k h s1 row Hk Hd|s0 s1 HI' (A & B & C & D & E)].
+  - by eapply es_push.
+  - by eapply es_pushw.
+  - by eapply es_destroy.
+  - apply es_same; [done|]. split_and!; try done. destruct E as [?|(_ & ? & ?)]; [by left|by right].
+Qed.
+
+Lemma esteps_weaken ac cfg s s' : esteps ac cfg s s' -> esteps true cfg s s'.
+Proof. induction 1; [constructor|]. econstructor; [by eapply estep_weaken|done]. Qed.
+
+Lemma wtrans_weaken ac cfg w w' : wtrans ac cfg w w' -> wtrans true cfg w w'.
+Proof. unfold wtrans. induction 1; constructor; [by eapply esteps_weaken|done]. Qed.
+
+Lemma ltrans_weaken ac cfg l l' : ltrans ac cfg l l' -> ltrans true cfg l l'.
+Proof.
+  intros (A & B & C & D). split_and!; try done. intros i w Hi. destruct (B i w Hi) as [?|(w' & ? & ?)]; [by left|].
+  right. exists w'. split; [done|by eapply wtrans_weaken].
+Qed.
+
 (* ================================================================ whole runs *)
 
 Lemma esteps_sreach cfg s s' : sreach true cfg s -> esteps true cfg s s' -> sreach true cfg s'.
@@ -780,21 +803,40 @@ Proof.
     eapply (IH st1); [split; [done|by eapply ltrans_rhist]|done|done|]. by apply (proj1 (proj2 (proj2 Htr))).
 Qed.
 
-Lemma run_to_rhist cfg d qs ops : wf_decl d -> forall st st', RHist cfg d st -> ok_run cfg d qs st ops = true ->
-  run_to cfg d qs st ops = Some st' -> RHist cfg d st' /\
-  (forall i w w', worlds st !! i = Some (Some w) -> worlds st' !! i = Some (Some w') -> wtrans true cfg w w').
+Definition clear_ok (ac : bool) (o : op) : Prop := match o with OClearEv _ => ac = true | _ => True end.
+
+Lemma wtrans_trans_ac ac cfg w1 w2 w3 : wtrans ac cfg w1 w2 -> wtrans ac cfg w2 w3 -> wtrans ac cfg w1 w3.
 Proof.
-  intros Hwf. induction ops as [|o ops IH]; intros st st' [HR HS] Hok; cbn [run_to ok_run] in *.
-  - intros [= <-]. split; [done|]. intros i w w' Hw Hw'. rewrite Hw in Hw'. injection Hw' as <-. apply (wtrans_refl true).
+  unfold wtrans. intros H12. revert w3. induction H12 as [|s1 s2 w1 w2 Hs H12 IH]; intros w3 H23; inversion H23; subst; constructor.
+  - by eapply esteps_trans.
+  - by apply IH.
+Qed.
+
+(** Along a run, the storages of a persisting world move by transitions; if no operation of the
+    segment is clear_events, by transitions that keep or extend the event logs. *)
+Lemma run_to_rhist_gen ac cfg d qs ops : wf_decl d -> Forall (clear_ok ac) ops ->
+  forall st st', RHist cfg d st -> ok_run cfg d qs st ops = true ->
+  run_to cfg d qs st ops = Some st' -> RHist cfg d st' /\
+  (forall i w w', worlds st !! i = Some (Some w) -> worlds st' !! i = Some (Some w') -> wtrans ac cfg w w').
+Proof.
+  intros Hwf Hcl. induction Hcl as [|o ops Hco Hcl IH]; intros st st' [HR HS] Hok; cbn [run_to ok_run] in *.
+  - intros [= <-]. split; [done|]. intros i w w' Hw Hw'. rewrite Hw in Hw'. injection Hw' as <-. apply wtrans_refl.
   - apply andb_true_iff in Hok as [Hok Hrest]. apply andb_true_iff in Hok as [Hwfo Hho]. apply wf_opb_true in Hwfo.
-    pose proof (step_inv cfg d qs st o Hwf Hwfo HR) as Hinv. pose proof (step_trans true cfg d qs st o Hwf Hwfo HR Hho ltac:(by destruct o)) as Htr.
+    pose proof (step_inv cfg d qs st o Hwf Hwfo HR) as Hinv. pose proof (step_trans ac cfg d qs st o Hwf Hwfo HR Hho Hco) as Htr.
     destruct (step cfg d qs st o) as [[st1 obs]|]; [|done]. intros Hrun.
-    assert (HH1 : RHist cfg d st1) by (split; [done|by eapply ltrans_rhist]).
+    assert (HH1 : RHist cfg d st1) by (split; [done|eapply ltrans_rhist; [by eapply ltrans_weaken|done]]).
     destruct (IH st1 st' HH1 Hrest Hrun) as [HH' Hpath]. split; [done|].
     intros i w w' Hw Hw'. destruct Htr as (_ & Hlive & Hdead & _).
     destruct (Hlive i w Hw) as [Hn|(w1 & Hw1 & Ht1)].
     + exfalso. pose proof (run_to_dropped cfg d qs ops i Hwf st1 st' HH1 Hrest Hrun Hn) as Hn'. rewrite Hn' in Hw'. done.
-    + eapply wtrans_trans; [exact Ht1|]. by eapply Hpath.
+    + eapply wtrans_trans_ac; [exact Ht1|]. by eapply Hpath.
+Qed.
+
+Lemma run_to_rhist cfg d qs ops : wf_decl d -> forall st st', RHist cfg d st -> ok_run cfg d qs st ops = true ->
+  run_to cfg d qs st ops = Some st' -> RHist cfg d st' /\
+  (forall i w w', worlds st !! i = Some (Some w) -> worlds st' !! i = Some (Some w') -> wtrans true cfg w w').
+Proof.
+  intros Hwf. apply run_to_rhist_gen; [done|]. apply Forall_forall. intros o _. by destruct o.
 Qed.
 
 Lemma rs0_rhist cfg d : RHist cfg d rs0.
